@@ -255,3 +255,55 @@ Lemma ev2_top_zero_example :
             word_idx wl_b39_english (last (repeat zoo 11 ++ [abandon]) []) = Ok 0 /\
             nth_error ev2_langs 1 = Some wl_b39_english.
 Proof. cbv zeta. eexists. split; [vm_compute; reflexivity|]. split; [vm_compute; reflexivity|reflexivity]. Qed.
+
+(* what ElectrumV2MnemonicGenerator.FromEntropy returns (conformant gate) decodes to entropy + k, k < MAX_ATTEMPTS *)
+Lemma ev2_generated_decodes hmac b39v ev1v fuel ty lang b ws :
+  ev2_from_entropy hmac b39v ev1v ev2_gate_conformant fuel ty lang b = Ok ws ->
+  exists k, k < ev2_max_attempts /\ (length ws = 12 \/ length ws = 24)%nat /\
+    forall dty dlang, dty = Some ty \/ dty = None -> dlang = Some lang \/ dlang = None ->
+      ev2_decode hmac b39v ev1v dty dlang ws = Ok (int_to_be_auto (be_to_int b + k)).
+Proof.
+  unfold ev2_from_entropy, ElectrumV2Mnemonic.from_entropy.
+  destruct (nth_error ev2_type_prefixes ty); simpl; [|discriminate].
+  destruct (nth_error ev2_langs lang); simpl; [|discriminate].
+  destruct (ev2_gate_conformant (be_to_int b)); [|discriminate]. intros H.
+  destruct (ev2_attempts_spec hmac b39v ev1v ev2_gate_conformant ty lang (be_to_int b) fuel 0 ws H) as (k & Lk & E & _).
+  rewrite N.add_0_l in *. exists k. split; [assumption|].
+  pose proof (ev2_dec_enc hmac b39v ev1v ty lang _ ws (Some ty) (Some lang) E (or_introl eq_refl) (or_introl eq_refl)) as [Hc _].
+  split; [exact Hc|]. intros dty dlang Ht Hl.
+  destruct (ev2_dec_enc hmac b39v ev1v ty lang _ ws dty dlang E Ht Hl) as [_ D].
+  rewrite be_to_int_auto in D. exact D.
+Qed.
+
+(* ---------------------------------------------------------------- statements in the explicit form of Props/C17.v *)
+From BU Require Import Gen.WlMnem_Xmr_english.
+Lemma c17_chunk_canonical_refuted :
+  exists wl e a b c x, In wl chunk_lists /\ In a wl /\ In b wl /\ In c wl /\
+    words_to_chunk_current wl e a b c = Ok x /\ length x = 5%nat /\
+    words_to_chunk wl e a b c = Err ValueError.
+Proof.
+  exists wl_xmr_english, Little, (nth 0 wl_xmr_english []), (nth 0 wl_xmr_english []),
+         (nth 1625 wl_xmr_english []), [4; 80; 20; 0; 1].
+  pose proof chunk_refuted_witness as W. cbv zeta in W.
+  repeat split; try tauto. right; right; left; reflexivity.
+Qed.
+
+Lemma xmr_accepts_iff_explicit : forall conformant lang L ws, nth_error xmr_langs lang = Some L ->
+  ((exists b, xmr_decoder conformant (Some lang) ws = Ok b) <->
+   (In (N.of_nat (length ws)) xmr_word_nums /\
+    Forall (fun w => In w (fst L)) ws /\
+    (In (N.of_nat (length ws)) xmr_word_nums_chk ->
+       compute_checksum (snd L) (removelast ws) = Ok (last ws [])) /\
+    (conformant = true ->
+       Forall (fun g => match g with
+                        | [a; b; c] => exists v, words_packed (fst L) a b c = Ok v /\ v < 2 ^ 32
+                        | _ => False end)
+              (groups 3 (Nat.div (length ws) 3) ws)))).
+Proof.
+  intros conformant lang L ws HL.
+  pose proof (xmr_accepts_iff conformant lang L ws HL) as H.
+  unfold BU.Lemmas.MoneroMnemonic.accepts_spec in H.
+  rewrite <- (xmr_nums_spec (length ws)), <- (xmr_chk_spec (length ws)) in H.
+  rewrite <- !(memb_In (N.of_nat (length ws))).
+  destruct conformant; exact H.
+Qed.
